@@ -6,7 +6,14 @@ from vf.models import dimlang as dl
 from vf.models import pytree as pt
 
 
-def model_pytree_check(m: dl.MCtx, meanings, sname, desc):
+def model_pytree_check(m: dl.MCtx, meanings, sname, desc, accept_payload=None, single_position=False):
+    """accept_payload(payload) -> True for leaves accepted without a shape check (e.g. the int arm of Union[int, Arr]);
+    single_position: every array is checked under the label of leaf 0 and the structure is a single leaf (the
+    structure-less PyTree nested in a structured one: the whole tree of arrays is one leaf)."""
+    return _model_pytree_check(m, meanings, sname, desc, accept_payload, single_position)
+
+
+def _model_pytree_check(m, meanings, sname, desc, accept_payload, single_position):
     """-> (allowed verdicts, context after acceptance, tentative bindings before the first problem,
     name of a newly bound structure or None)."""
     if desc[0] == "none":
@@ -15,7 +22,7 @@ def model_pytree_check(m: dl.MCtx, meanings, sname, desc):
     tent = 0
     new_struct = None
     lvs = pt.leaves(desc)
-    struct = pt.structure(desc)
+    struct = ("leaf",) if single_position else pt.structure(desc)
     problems = set()
     label_struct = None
     if sname:
@@ -36,9 +43,13 @@ def model_pytree_check(m: dl.MCtx, meanings, sname, desc):
                 problems.add(dl.FALSE)
     if not problems:
         for i, lf in enumerate(lvs):
+            if accept_payload is not None and accept_payload(lf[1]):
+                continue
             if isinstance(lf[1], str):
                 problems.add(dl.FALSE)
                 break
+            if single_position:
+                i = 0
             label = f"(Leaf {i} in structure {label_struct}) " if label_struct else None
             o = dl.match(meanings, lf[1], m2, label=label, in_structured=1 if label_struct else 0)
             if o.allowed == {dl.TRUE}:
